@@ -411,6 +411,57 @@ func raceParent(ctx *Ctx) {
 			Tags: []string{"stress-child-failed"}, NonTrv: false, Key: "?stress-child-failed",
 		})
 	}
+	// ---- recorded findings that gained an access site (lib/props/C20_sites.json, written by
+	// tools/mk_race_findings.py --sites when the findings were recorded): the group is listed, so the static verdict
+	// does not change, but the finding is no longer the one that was triaged (e.g. an unguarded write that used to be
+	// rare now happens on every control cycle).  Reported as its own failing, unreconciled case.
+	if sp := os.Getenv("VERIF_RACE_SITES"); sp != "" && ctx.Replay == nil {
+		rawSites, err := os.ReadFile(sp)
+		recorded := map[string][]string{}
+		if err != nil || json.Unmarshal(rawSites, &recorded) != nil {
+			fmt.Fprintln(os.Stderr, "race: unreadable recorded-sites file", sp, err)
+			os.Exit(3)
+		}
+		gkeys := make([]string, 0, len(recorded))
+		for g := range recorded {
+			gkeys = append(gkeys, g)
+		}
+		sort.Strings(gkeys)
+		for _, g := range gkeys {
+			parts := strings.Split(g, "|")
+			if len(parts) != 3 {
+				continue
+			}
+			known := map[string]bool{}
+			for _, x := range recorded[g] {
+				known[x] = true
+			}
+			var fresh []string
+			seenSite := map[string]bool{}
+			for _, e := range byLoc[parts[0]] {
+				if e.Kind != parts[1] && e.Kind != parts[2] {
+					continue
+				}
+				d := fmt.Sprintf("%s %s %s%s", e.Kind, e.Mode, raceShort(e.Func), raceLocks(e.Locks))
+				if !known[d] && !seenSite[d] {
+					seenSite[d] = true
+					fresh = append(fresh, fmt.Sprintf("%s at %s:%d", d, e.File, e.Line))
+				}
+			}
+			if len(fresh) == 0 {
+				continue
+			}
+			sort.Strings(fresh)
+			loc := "?new-site-in-recorded-finding:" + parts[0]
+			ctx.Emit(Record{
+				In: raceGroupIn{Loc: loc, KindA: parts[1], KindB: parts[2], SitesA: fresh, SitesB: recorded[g]},
+				Obs: raceGroupObs{Dyn: dyn[gkey{parts[0], parts[1], parts[2]}], Witness: "no", Sample: "new access site(s): " + strings.Join(fresh, "; "),
+					Detector: raceDetectorEnabled, Mapped: false, Rounds: rounds, FatalMapAborts: fatals},
+				Coq:  fmt.Sprintf("(mkCase %s %s %s 0 false)", raceCoqStr(loc), parts[1], parts[2]),
+				Tags: []string{"new-site-in-recorded-finding"}, NonTrv: true, Key: loc + "|" + parts[1] + "|" + parts[2],
+			})
+		}
+	}
 	seenUn := map[string]bool{}
 	for i := range unmapped {
 		rep := unmapped[i]
